@@ -14,6 +14,9 @@ def enumerate_specs(tier):
     specs = [{"scenario": n} for n in SCENARIOS]
     for name, od in cat.REG.items():
         for ci, args in enumerate(od.configs(tier)):
+            if args.get("precise"):   # double-precision comparison with the real guard constants in place
+                specs.append({"op": name, "args": args, "variant": {"dtype": "float64", "precise": True}})
+                continue
             specs.append({"op": name, "args": args, "variant": {}})
             if "const" in args:     # a Python constant with a float64 tensor: double precision expected
                 specs.append({"op": name, "args": args, "variant": {"dtype": "float64", "precise": True}})
